@@ -244,6 +244,8 @@ def reference(g: ModelGrammar, e: int) -> dict:
             return dist(t.args[0])
         if t.kind == "union":
             return min(INF, e + min(dist(a) for a in t.args))     # choosing a member is an expansion
+        if t.kind == "tuple":
+            return min(INF, e + max(dist(a) for a in t.args))     # every member is built
         raise AssertionError(t)
 
     changed = True
@@ -372,6 +374,7 @@ def interpret(ctx, g: ModelGrammar, e: int) -> tuple[Optional[dict], str]:
     def mk():
         it = Interp(prog, gcls, atom, call_model, max_depth=40, max_traces=4)
         it.allow_recursion = True
+        it.instantiate_classes = True
         it.while_cap = 24
         return it
 
@@ -380,9 +383,9 @@ def interpret(ctx, g: ModelGrammar, e: int) -> tuple[Optional[dict], str]:
         try:
             runs = it.run(fn, env)
         except Budget:
-            return None, f"{fn.name}: open conditions (the model does not determine a branch)"
+            return None, f"{fn.name}: open conditions (the model does not determine the branch at {it.fork_sites[:2]})"
         if len(runs) != 1:
-            return None, f"{fn.name}: {len(runs)} interpretations (a branch depends on something the model does not determine)"
+            return None, f"{fn.name}: {len(runs)} interpretations (the model does not determine the branch at {it.fork_sites[:2]})"
         trace, rv, notes = runs[0]
         raised = [x for x in trace if x.kind == "raise"]
         if raised:
@@ -444,6 +447,45 @@ def names(v: Any) -> Any:
     if isinstance(v, dict):
         return {names(k): names(x) for k, x in v.items()}
     return v
+
+
+def tup(*ts: TypeV) -> TypeV:
+    return TypeV("tuple", f"tuple[{', '.join(t.name for t in ts)}]", tuple(ts))
+
+
+def wrapper_family() -> list:
+    """S -> P(f: W) | Z, T -> Z2: the only way from S back to S passes through the wrapper type W, for nine nested forms"""
+    S, T = C("S"), C("T")
+    forms = [lst(S), ann(S), uni(S, T), tup(S, T), ann(lst(S), "MHL"), lst(ann(S)), uni(lst(S), T), tup(lst(S), T), lst(tup(S, T))]
+    out = []
+    for w in forms:
+        out.append(ModelGrammar(f"recursion only through a field of type {w.name.replace('S', 'A').replace('T', 'B')}", "S", {
+            "S": ("abstract", None, []), "T": ("abstract", None, []),
+            "P": ("concrete", "S", [("f", w)]), "Z": ("concrete", "S", []), "Z2": ("concrete", "T", []),
+        }, ["P", "Z", "Z2"]))
+    return out
+
+
+def wrapper_rule(ctx, rid: str) -> int:
+    """the recursive set sees through every wrapper form: one obligation per nested wrapper type (default depth mode)"""
+    gcls = ctx.prog.classes.get(GRAMMAR)
+    pre = gcls.methods.get("preprocess") if gcls else None
+    n = 0
+    for g in wrapper_family():
+        n += 1
+        st, why = interpret(ctx, g, 0)
+        wname = g.name.split("type ", 1)[1]
+        construct = f"the reachability relation reaches the symbols inside {wname}"
+        if st is None:
+            fails = why.startswith("RAISES")
+            ctx.ob(rid, pre, pre.node if pre else None, construct, False if fails else None,
+                   f"the analysis fails on a grammar with such a field ({why[7:]})" if fails else f"not followed: {why}", witness={"type": wname})
+            continue
+        ok, detail = compare(g, st, reference(g, 0), "recursive")
+        ctx.ob(rid, pre, pre.node if pre else None, construct, ok,
+               "" if ok else f"a production whose only way back to its own symbol passes through a field of type {wname}: {detail} - the symbols inside "
+                             f"that wrapper are not seen by the recursion analysis", witness={"type": wname})
+    return n
 
 
 ASPECTS = {
